@@ -231,6 +231,20 @@ def case_minor(mon, q, e, inc, node, argp, T, jde):
         return
     if 0.98 <= e < 1.0:
         mon.hit("near-parabolic-answered")
+    # the same orbit loaded with set() into an object that held another one
+    # (and was used) must give the same answer
+    try:
+        m2 = Minor(2.2091404 * (1 - 0.8502196), 0.8502196, Angle(11.94524),
+                   Angle(334.75006), Angle(186.23352), Epoch(2448193.04502))
+        m2.geocentric_position(Epoch(2448170.5))
+        m2.set(q, e, Angle(inc), Angle(node), Angle(argp), Epoch(T))
+        r2 = m2.geocentric_position(Epoch(jde))
+        same = (r2[0]() == ra() and r2[1]() == dec() and r2[2]() == psi())
+    except Exception as ex:
+        same, r2 = False, repr(ex)
+    mon.check("minor.set()-history-independent", same,
+              lambda: dict(case, fresh=[ra(), dec(), psi()],
+                           after_set=repr(r2)[:200]))
     mon.check("epoch-not-shifted", ep.jde() == jd, dict(case,
                                                         after=ep.jde()))
     xs = Sun.rectangular_coordinates_j2000(Epoch(jd))
